@@ -313,10 +313,57 @@ var mutators = []mutator{
 		sc.segs = []segSpec{s}
 		sc.local, sc.currHF, sc.currINF, sc.xover, sc.postX = 1, 1, 0, false, false
 		sc.inLink, sc.inIfID, sc.inScope = 0, 0, scInt
+		sc.kind = "s1/dummy-hop/int"
 		sc.srcIA, sc.dstIA = otherIA(r, sc.cfg.ia), otherIA(r, sc.cfg.ia)
 		sc.rechain()
 		// the local origin hop must verify with the SegID it carries
 		sc.segs[0].segID = sc.segs[0].betas[1]
+		sc.expect = "drop"
+		return true
+	}},
+	{"max-hops", func(r *vlib.Rand, sc *scenario) bool {
+		// pad the last segment so that the path has exactly 64 hops (the maximum) or 65
+		if sc.segs[0].peer || sc.isLast() || sc.postX && sc.currHF == sc.totalHops()-1 {
+			return false
+		}
+		target := 64 + r.Intn(2)
+		need := target - sc.totalHops()
+		last := &sc.segs[len(sc.segs)-1]
+		if need <= 0 || len(last.hops)+need > 63 {
+			return false
+		}
+		var extra []hopSpec
+		for k := 0; k < need; k++ {
+			extra = append(extra, hopSpec{consIn: uint16(r.Range(1, 65535)), consEg: uint16(r.Range(1, 65535)), exp: 255, key: randKey(r)})
+		}
+		if last.consDir {
+			last.hops = append(last.hops, extra...)
+		} else {
+			last.hops = append(extra, last.hops...)
+		}
+		sc.rechain()
+		if target == 65 {
+			sc.expect = "drop"
+		}
+		return true
+	}},
+	{"last-hop-outbound", func(r *vlib.Rand, sc *scenario) bool {
+		// handed over by a sibling router at the path's last hop although the destination is
+		// another AS: every check passes, but the path cannot be advanced any further
+		if !sc.isLast() || sc.inScope != scExt {
+			return false
+		}
+		in := sc.cfg.find(sc.travelIn(sc.currHF))
+		if in == nil {
+			return false
+		}
+		in.scope, in.link = scSib, 1
+		sc.inLink, sc.inIfID, sc.inScope = 1, 0, scSib
+		eg := sc.freshIf(r)
+		sc.cfg.ifs = append(sc.cfg.ifs, ifaceCfg{id: eg, scope: scExt, lt: r.Range(0, 4), up: true, link: 42})
+		sc.setTravelEg(sc.currHF, eg)
+		sc.dstIA = otherIA(r, sc.cfg.ia)
+		sc.rechain()
 		sc.expect = "drop"
 		return true
 	}},
